@@ -945,10 +945,18 @@ def _c15_inflow(hs, prev, op, ok, trace, cur, t):
         if x[1] == 'bank' and x[2] == 'reward':
             paid += sum(a for d, a in coins(x[4]) if d == denom)
     hs['c15_u'] += bank(cur, 'reward', denom) - bank(prev, 'reward', denom) + paid
+    # an executed index update over a non-empty pool closes the period (whether or not the rest of
+    # the monitor judges this operation)
+    prs_ = rstate(prev)
+    if ok and prs_ is not None and prs_[1] > 0 and any(
+            x[1] == 'wasm' and x[3] == 'reward' and x[4] == 'update_global_index' for x in trace_lines(trace)):
+        hs['c15_check'] = hs['c15_u']
+        hs['c15_u'] = 0
 
 
 def mon_c15(hs, prev, op, ok, trace, cur, known):
     t = track_inst(hs, op, ok)
+    hs.pop('c15_check', None)
     _c15_inflow(hs, prev, op, ok, trace, cur, t)
     if prev is None or not ok:
         return None
@@ -983,13 +991,11 @@ def mon_c15(hs, prev, op, ok, trace, cur, known):
         if dgi != delivered * D // prs[1]:
             return ('violation', 'index rose by %d for %d delivered over %d bSei (floor gives %d)' % (dgi, delivered, prs[1], delivered * D // prs[1]))
     # the reward delivered per bSei, measured on the coins that actually arrived since the last update
-    u = hs.get('c15_u')
-    if u is not None and prs[1] > 0 and any(x[1] == 'wasm' and x[3] == 'reward' and x[4] == 'update_global_index' for x in trace_lines(trace)):
+    u = hs.get('c15_check')
+    if u is not None and prs[1] > 0:
         if u >= 0 and dgi != u * D // prs[1]:
-            hs['c15_u'] = 0
             return ('violation', 'index rose by %d per bSei in %r, but %d reward coins arrived since the last update for %d bSei (floor gives %d): '
                     'holders accrue something else than balance x reward delivered per bSei' % (dgi, op, u, prs[1], u * D // prs[1]))
-        hs['c15_u'] = 0
     return None
 
 
